@@ -25,8 +25,11 @@ def one(bid, checks):
         if r.returncode:
             print(r.stdout)
             return 2
-    sh("git -C %s checkout -q --detach %s && git -C %s checkout -q -- . && git -C %s clean -qfd -e target" % (WT, head, WT, WT))
+    sh("git -C %s reset -q --hard && git -C %s checkout -q --detach %s && git -C %s reset -q --hard %s && git -C %s clean -qfd -e target"
+       % (WT, WT, head, WT, head, WT))
     r = sh("git -C %s apply %s" % (WT, os.path.join(bd, "patch.diff")))
+    if r.returncode:
+        r = sh("git -C %s apply --3way %s" % (WT, os.path.join(bd, "patch.diff")))     # /repo moved on since the patch was made
     if r.returncode:
         print("patch does not apply:", r.stdout)
         return 2
@@ -42,7 +45,7 @@ def one(bid, checks):
                "stderr_tail": p.stderr.splitlines()[-3:]}
         out.append(rec)
         print(json.dumps(rec), flush=True)
-    sh("git -C %s checkout -q -- ." % WT)
+    sh("git -C %s reset -q --hard" % WT)
     runs_p = os.path.join(bd, "runs.json")
     runs = json.load(open(runs_p)) if os.path.exists(runs_p) else []
     runs = [r for r in runs if not any(r["check"] == o["check"] for o in out)] + out
